@@ -135,7 +135,10 @@ def oracle(ctx, line, res):
             # a tie: equal up to float rounding, or up to the 1e-5-per-degree tolerance within which the
             # shipped definitions agree with each other (two conversion chains may differ by that much)
             tol = max(TIE, F(1, 10**5) * (degree(qa.unit) + degree(qb.unit)))
-            tie = sa is not None and sb is not None and abs(sa - sb) <= tol * max(abs(sa), abs(sb))
+            # on the affine temperature scales a tie may sit at absolute zero (-459.67 °F vs 0 R): the
+            # rounding error is relative to the offsets (hundreds of kelvin), not to the values
+            floor = F(300) if (scale_of(qa.unit) is not None and scale_of(qb.unit) is not None) else 0
+            tie = sa is not None and sb is not None and abs(sa - sb) <= tol * max(abs(sa), abs(sb), floor)
         if not tie:
             k = "comparison-asymmetric" if op in ("eq", "ne") else "comparison-not-mirrored"
             fails.append(failure(k, this=res, mirrored=m))
@@ -195,7 +198,8 @@ def skip_compare(ctx, line, res):
         tol = max(TIE, F(1, 10**5) * (degree(qs[0].unit) + degree(qs[1].unit)))
         return any(abs(x - y) <= tol * scale for x in pts[0] for y in pts[1])
     tol = max(TIE, F(1, 10**5) * (degree(qs[0].unit) + degree(qs[1].unit)))
-    return abs(sa - sb) <= tol * max(abs(sa), abs(sb))
+    floor = F(300) if all(scale_of(q.unit) is not None for q in qs) else 0
+    return abs(sa - sb) <= tol * max(abs(sa), abs(sb), floor)
 
 
 def final_oracle(ctx):
@@ -251,7 +255,8 @@ def final_oracle(ctx):
         if n != 1:
             sa, sb = si(ctx, a), si(ctx, b)
             tol = max(TIE, F(1, 10**5) * (degree(a.unit) + degree(b.unit)))
-            if sa is not None and sb is not None and abs(sa - sb) > tol * max(abs(sa), abs(sb)):
+            floor = F(300) if (scale_of(a.unit) is not None and scale_of(b.unit) is not None) else 0
+            if sa is not None and sb is not None and abs(sa - sb) > tol * max(abs(sa), abs(sb), floor):
                 fails.append({"kind": "trichotomy", "class": classify(a.unit, b.unit), "x": str(a), "y": str(b),
                               "lt": r, "eq": e, "gt": g, "from": str(a.unit), "to": str(b.unit)})
     return fails
